@@ -294,7 +294,7 @@ class Specs:
                 c.modifies = (c.modifies or []) + list(call.args)
             elif fn == 'ghost_set':
                 c.ghost_sets.append((call.args[0], call.args[1]))
-            elif fn in ('use', 'hint', 'unfold'):
+            elif fn in ('use', 'hint', 'unfold', 'gset'):
                 (c.post_ghost if seen_ens else c.pre_ghost).append(call)
             elif fn in ('use_post', 'hint_post'):
                 c.post_ghost.append(call)
